@@ -132,14 +132,9 @@ theorem ruleSteps_present {cx : Ctx} :
     · apply ruleSteps_keeps _ h2
       unfold ruleUses at hu
       obtain ⟨a, ha, hua⟩ := List.mem_flatMap.mp hu
-      unfold ruleStep at h1
-      split at h1
-      · cases h1
-      · split at h1
-        · cases h1
-        · split at h1
-          · exact altSteps_present h1 a ha u hua
-          · exact altSteps_present h1 a ha u hua
+      rcases ruleStep_ok h1 with ⟨nt, hf, h1⟩ | ⟨hf, h1⟩
+      · exact altSteps_present h1 a ha u hua
+      · exact altSteps_present h1 a ha u hua
     · exact ruleSteps_present h2 u hu
 
 /-! ## uses of the file = uses met while the rules are processed -/
